@@ -4,7 +4,9 @@
    numbers: "m:e" = m * 2^e (m, e decimal integers), or nan / inf / -inf where a double may be non-finite.
    strat: C (CeresStrategy) | D (DisneyStrategy) | S (scripted user strategy).  cont=1: start from the strategy state
    the previous case with the same strategy kind left behind (shared strategy object reused across calls).
-   argv: <cases file> [fixed]   (fixed: replay the model of the patched code, see notes/C09.md)
+   argv: <cases file> [pre-16638da]   default: the model of the code that exists (Model.code_now: optim.hpp:147 with the
+         r_n == 0 disjunct, /repo since 16638da); "pre-16638da": the historical model of the code before that fix
+         (diagnosis of a tree in which the fix was reverted, see notes/C09.md)
    Output: id status iter ncallbacks pattern final_delta delta_0 ... delta_{iter-1}
      pattern: per iteration 3 chars  take(T/F) stepped(S/-) conv(f/p/-)                                           *)
 open Model
@@ -64,7 +66,7 @@ let last_ceres = ref ceres_init
 let last_disney = ref disney_init
 let last_script : script ref = ref []
 
-let fixed = Array.length Sys.argv > 2 && Sys.argv.(2) = "fixed"
+let fixed = if Array.length Sys.argv > 2 && Sys.argv.(2) = "pre-16638da" then false else code_now
 
 let () =
   let ic = if Array.length Sys.argv > 1 then open_in Sys.argv.(1) else stdin in
